@@ -224,4 +224,36 @@ def retInterpolateWrapPoints (M : Nat) (bu : Backup) (xPrev xNow : Rat) (wrapPre
   let c ← filterCross M r.cross
   pure { r with cross := c }
 
+/-! ## Which films of a log pass are plotted
+`PlotLogs.PlotLogPasses._plotUsingLISLogicalRecords` / `_plotLISUsingLgFormats` / `_plotLASUsingLgFormats` and
+`Plot.hasDataToPlotLIS`.  Film ids and channel mnemonics are abstract numbers. -/
+
+/-- one PRES row as far as the selection is concerned: destination film and OUTP channel -/
+structure PresRow where
+  dest : Nat
+  outp : Nat
+  deriving Repr, DecidableEq
+
+/-- `PresCfg.outpChIDs(dest)`: the OUTP channels of the curves sent to that film -/
+def outpChIDs (pres : List PresRow) (film : Nat) : List Nat :=
+  (pres.filter (fun r => r.dest == film)).map (fun r => r.outp)
+
+/-- `Plot.hasDataToPlotLIS(theLogPass, theFilmId)`:
+```
+if theLogPass.totalFrames == 0: return False
+if not self._presCfg.hasCurvesForDest(theFilmId): return False
+for anO in self._retOutputChIDs(theFilmId):
+    if theLogPass.hasOutpMnem(anO): return True
+return False
+``` -/
+def hasDataToPlot (totalFrames : Nat) (pres : List PresRow) (chans : List Nat) (film : Nat) : Bool :=
+  if totalFrames = 0 then false
+  else if !(pres.any (fun r => r.dest == film)) then false
+  else (outpChIDs pres film).any (fun o => chans.contains o)
+
+/-- the per-film loop: `for aFilmId in myPlot.filmIdS(): if hasData(aFilmId): plot … else: log` (no early exit) -/
+def plotLoop {α} (has : α → Bool) : List α → List α
+  | [] => []
+  | f :: fs => if has f then f :: plotLoop has fs else plotLoop has fs
+
 end TD.C19
